@@ -374,9 +374,29 @@ func c04LenCauses(a bgp.PathAttributeInterface, o bgpgen.OptSet, l0, emitted int
 
 // lenClause=false leaves out the Len()-of-the-constructed-value clause (used when deciding whether a
 // message is worth checking: a wrong cached length does not stop the round trip).
+// c04AttrShape names input shapes of an attribute that select distinct decoder loops (so that two
+// different root causes in one attribute type do not share a key).
+func c04AttrShape(a bgp.PathAttributeInterface) string {
+	if t, ok := a.(*bgp.PathAttributeTunnelEncap); ok {
+		for _, tlv := range t.Value {
+			if len(tlv.Value) == 0 {
+				return ":tlv-without-sub-tlv"
+			}
+		}
+		for _, tlv := range t.Value {
+			if u, ok := tlv.Value[len(tlv.Value)-1].(*bgp.TunnelEncapSubTLVUnknown); ok && len(u.Value) == 0 {
+				return ":last-sub-tlv-has-empty-value"
+			}
+		}
+	}
+	return ""
+}
+
 func c04CheckAttrValue(r *vr.Report, cs c04Case, name string, a bgp.PathAttributeInterface, o bgpgen.OptSet, lenClause bool) bool {
 	ab := struct{ Name string }{name}
 	tn := c04AttrTypeName(a)
+	shape := ""
+	c04Try(func() { shape = c04AttrShape(a) })
 	var b []byte
 	var err error
 	l0 := -1
@@ -438,7 +458,7 @@ func c04CheckAttrValue(r *vr.Report, cs c04Case, name string, a bgp.PathAttribut
 			return false
 		}
 		if err != nil || !bytes.Equal(b2, b) {
-			r.Violationf("C04:roundtrip-bytes-differ:"+tn, cs, "attribute %s [%s]: %s re-serialises to %s (first difference at %d; err=%v)", ab.Name, o.Name, c04Hex(b), c04Hex(b2), c04FirstDiff(b, b2), err)
+			r.Violationf("C04:roundtrip-bytes-differ:"+tn+shape, cs, "attribute %s [%s]: %s re-serialises to %s (first difference at %d; err=%v)", ab.Name, o.Name, c04Hex(b), c04Hex(b2), c04FirstDiff(b, b2), err)
 			return false
 		}
 		if got, _ := c04JSON(d); got != want {
